@@ -40,7 +40,7 @@ def bisectRight (head : List (Int × Nat)) (e : Int × Nat) : Nat :=
   (head.takeWhile (fun h => tupLe h e)).length
 
 /-- `list.insert(j, e)` -/
-def insertAt {α : Type} (l : List α) (j : Nat) (e : α) : List α := l.take j ++ e :: l.drop j
+def c19_insertAt {α : Type} (l : List α) (j : Nat) (e : α) : List α := l.take j ++ e :: l.drop j
 
 /-- "First insert all fibers": pops the last element of every list.  A list without
     elements would raise IndexError in Python; it cannot occur (presented sub-fibers hold
@@ -56,7 +56,7 @@ def infHeads : Nat → List (List Int) → List (Int × Nat) → Nat → List (L
     | some x =>
       let e := (x, i)
       let j := bisectRight head e
-      let r := infHeads (i + 1) ls (insertAt head j e) (cmp + (head.length - j + 1))
+      let r := infHeads (i + 1) ls (c19_insertAt head j e) (cmp + (head.length - j + 1))
       (l.dropLast :: r.1, r.2.1, r.2.2)
 
 /-- "Now build the result": `while head:` — every iteration pops one entry, `fuel` is the
@@ -75,7 +75,7 @@ def infDrain : Nat → List (List Int) → List (Int × Nat) → List Int → Na
       | some x =>
         let new := (x, elem.2)
         let j := bisectRight head new
-        infDrain fuel (coords.set elem.2 l.dropLast) (insertAt head j new) merged
+        infDrain fuel (coords.set elem.2 l.dropLast) (c19_insertAt head j new) merged
           (cmp + (head.length - j + 1))
 
 def mergeInf (chunk : List (List Int)) : Nat × List Int :=
